@@ -105,6 +105,9 @@ PROOF_UNITS = {
     'C18': [('contracts.pure', 'CompactTimeslot', (), {})],
 }
 
+_C02_ACCUM = [u for u in PROOF_UNITS['C02'] if u[0] == 'contracts.neighbours' and u[3].get('mode') == 'accum']
+PROOF_UNITS['C08'] = PROOF_UNITS['C08'] + _C02_ACCUM
+
 # property id -> list of bounded part names (functions in bounded/parts.py)
 BOUNDED_PARTS = {
     'C01': ['c01_presence', 'engine_differential'],
